@@ -893,6 +893,86 @@ func ruleACells(w *World, r *Report) {
 }
 
 func (w *World) checkExistential(r *Report, key string, fn *ssa.Function, prims map[*ssa.Function]bool, both bool) {
+	isPrim := func(c *ssa.Call) bool { return prims[c.Call.StaticCallee()] }
+	okAll, why := w.existentialShape(fn, isPrim, both)
+	if !okAll && !both {
+		// the loop written once, as a helper that takes the comparison as a function
+		// value: every return of the cell is that helper's result, the helper is
+		// existential in calls of its function parameter, and the function handed
+		// over returns a primitive comparison's outcome
+		if ok2, why2, tried := w.existentialThroughHelper(fn, isPrim); tried {
+			okAll, why = ok2, why2
+		}
+	}
+	if okAll {
+		r.ok("A-CELLS", key+":existential", w.pos(fn.Pos()), "true only under a true comparison; false only on exhaustion; every pulled node is compared")
+	} else {
+		r.bad("A-CELLS", key+":existential", w.pos(fn.Pos()), fn.Name()+" is not existential: "+why)
+	}
+}
+
+func (w *World) existentialThroughHelper(fn *ssa.Function, isPrim func(*ssa.Call) bool) (ok bool, why string, tried bool) {
+	var helper *ssa.Function
+	pidx := -1
+	var closures []*ssa.Function
+	for _, b := range fn.Blocks {
+		ret, isRet := normalReturn(b)
+		if !isRet {
+			continue
+		}
+		c, isCall := ret.Results[0].(*ssa.Call)
+		if !isCall {
+			return false, "", false
+		}
+		h := c.Call.StaticCallee()
+		if h == nil || !w.inPkg(h) || len(h.Blocks) == 0 || (helper != nil && helper != h) {
+			return false, "", false
+		}
+		helper = h
+		found := false
+		for i, a := range c.Call.Args {
+			mc, isMC := a.(*ssa.MakeClosure)
+			if !isMC {
+				continue
+			}
+			sig := mc.Fn.(*ssa.Function).Signature
+			if sig.Results().Len() != 1 || !isBoolType(sig.Results().At(0).Type()) {
+				continue
+			}
+			if pidx >= 0 && pidx != i {
+				return false, "", false
+			}
+			pidx, found = i, true
+			closures = append(closures, mc.Fn.(*ssa.Function))
+		}
+		if !found {
+			return false, "", false
+		}
+	}
+	if helper == nil || pidx < 0 || pidx >= len(helper.Params) {
+		return false, "", false
+	}
+	param := helper.Params[pidx]
+	viaParam := func(c *ssa.Call) bool { return c.Call.Value == ssa.Value(param) }
+	if ok, why := w.existentialShape(helper, viaParam, false); !ok {
+		return false, "through " + helper.Name() + ": " + why, true
+	}
+	for _, cl := range closures {
+		for _, b := range cl.Blocks {
+			ret, isRet := normalReturn(b)
+			if !isRet {
+				continue
+			}
+			c, isCall := ret.Results[0].(*ssa.Call)
+			if !isCall || !isPrim(c) {
+				return false, "the comparison handed to " + helper.Name() + " returns something other than the outcome of a primitive comparison", true
+			}
+		}
+	}
+	return true, "", true
+}
+
+func (w *World) existentialShape(fn *ssa.Function, isPrim func(*ssa.Call) bool, both bool) (bool, string) {
 	sel, ev := w.selectMethod(), w.evaluateMethod()
 	okAll := true
 	why := ""
@@ -913,7 +993,7 @@ func (w *World) checkExistential(r *Report, key string, fn *ssa.Function, prims 
 				ifi := blockIf(p)
 				good := false
 				if ifi != nil && p.Succs[0] == b {
-					if call, ok := ifi.Cond.(*ssa.Call); ok && prims[call.Call.StaticCallee()] {
+					if call, ok := ifi.Cond.(*ssa.Call); ok && isPrim(call) {
 						good = true
 					}
 				}
@@ -962,7 +1042,7 @@ func (w *World) checkExistential(r *Report, key string, fn *ssa.Function, prims 
 		for _, b := range comp {
 			for _, in := range b.Instrs {
 				if c, ok := in.(*ssa.Call); ok {
-					if prims[c.Call.StaticCallee()] {
+					if isPrim(c) {
 						cut[b] = true
 					}
 					if c.Call.IsInvoke() && c.Call.Method.Name() == sel {
@@ -978,11 +1058,7 @@ func (w *World) checkExistential(r *Report, key string, fn *ssa.Function, prims 
 			}
 		}
 	}
-	if okAll {
-		r.ok("A-CELLS", key+":existential", w.pos(fn.Pos()), "true only under a true comparison; false only on exhaustion; every pulled node is compared")
-	} else {
-		r.bad("A-CELLS", key+":existential", w.pos(fn.Pos()), fn.Name()+" is not existential: "+why)
-	}
+	return okAll, why
 }
 
 // edgeIsSelectNil: edge p->b is taken only when a Select() result is nil
